@@ -81,8 +81,19 @@ Bug 1 - a termination or resource bug. For one specific legal input, configurati
 Bug 2 - the adversary's choice. Assume the property is guarded by a strong automated harness that generates thousands of random source packages, configurations and call sequences, compares results with a reference model, compiles and runs the generated code, uses the race detector, injects faults, and writes each setting at every configuration level. Think about what such a harness most likely does NOT vary - because it is tedious to generate, hard to model, or looks irrelevant - and put your bug exactly there. Say in README.md what you assumed the harness would not vary, and why a real user could still run into it.
 
 Both bugs must read like a refactor, clean-up or small optimisation that a reviewer would wave through, must leave the build and the existing suite green, and must need a specific input, configuration, sequence or interleaving to show. The source files most relevant to this property are: {anchors} (the bug itself may live elsewhere, e.g. in a helper those files call)."""
+GUIDANCE10 = """Nine earlier rounds have produced some 360 bugs for these properties. This round asks for two special kinds, one bug of each; say in README.md which is which.
+
+Bug 1 - two cooperating sites. The change consists of TWO edits in different functions (preferably different files). Each edit applied alone is behaviour-preserving or at least harmless for the property (say in README.md why each looks fine alone, and confirm it: with only one of the two edits your demo must still pass); together they break the property for a specific legal input, configuration or sequence. Typical shapes: a producer that stops normalising / sorting / copying / defaulting because "the consumer does it anyway" plus a consumer that stops for the symmetric reason; an invariant established in a constructor and relied upon three calls later; a sentinel value (empty string, nil, -1, zero time) that one site starts to produce and another site already interprets specially; a cache filled at one site and keyed at another; an error wrapped at one site and compared with == at another.
+
+Bug 2 - an analogue of a bug that real users have reported against Go mock generators (mockery v1/v2/v3, moq, gomock/mockgen, counterfeiter, testify) or against tools built on go/packages and go/types. Recall what such reports looked like - import paths whose last element is not the package name (gopkg.in/yaml.v3, .../v2 major-version suffixes, dashes or dots in directory names, go-xyz), vendored or replaced modules, nested modules and go.work, dot imports and blank imports and renamed imports in the source file, cgo or assembly files in the package, files excluded by GOOS/GOARCH suffix or build tags, test-only declarations, `internal` packages, type aliases under the gotypesalias setting, generic constraints with methods or embedded constraints, embedded interfaces from other packages with unexported methods, interfaces that embed `error` or `fmt.Stringer` or `comparable`, function-typed or channel-typed parameters of named types, named results shadowing packages, Windows-style or very long paths, config files with tabs / BOM / CRLF / duplicate keys / anchors, YAML booleans like `yes`/`on`, numbers where strings are expected, and so on - and re-introduce an analogue of one into this code base at a place where this property depends on it. Say in README.md which kind of report inspired it.
+
+Both bugs must read like a refactor, clean-up or small optimisation that a reviewer would wave through, must leave the build and the existing suite green, and must need a specific input, configuration, sequence or interleaving to show. The source files most relevant to this property are: {anchors} (the bug itself may live elsewhere, e.g. in a helper those files call)."""
 suffix = sys.argv[1]
-if suffix.startswith("9"):
+if suffix.startswith("10"):
+    a = T.index("## Additional guidance for this round")
+    b = T.index("## Environment facts")
+    T = T[:a] + "## Additional guidance for this round\n\n{guidance5}\n\n" + T[b:]
+if suffix.startswith("9") and not suffix.startswith("10"):
     a = T.index("## Additional guidance for this round")
     b = T.index("## Environment facts")
     T = T[:a] + "## Additional guidance for this round\n\n{guidance5}\n\n" + T[b:]
@@ -111,7 +122,9 @@ for pid in (sys.argv[2:] or sorted(props)):
         if suffix.startswith("6"):   # the families not offered to this property in round 5
             fam = [(k * 7 + 3) % 20, (k * 7 + 8) % 20, (k * 7 + 13) % 20, (k * 7 + 18) % 20]
         extra["guidance5"] = GUIDANCE5.format(assigned="\n".join("  - " + MENU[f] for f in fam), anchors=', '.join(p['anchors']['files']))
-    if suffix.startswith("9"):
+    if suffix.startswith("10"):
+        extra["guidance5"] = GUIDANCE10.format(anchors=', '.join(p['anchors']['files']))
+    elif suffix.startswith("9"):
         extra["guidance5"] = GUIDANCE9.format(anchors=', '.join(p['anchors']['files']))
     if suffix.startswith("8"):   # the twelve families offered to this property in rounds 5-7 are named as used up
         k = int(pid[1:])
